@@ -12,7 +12,8 @@ mkdir -p $dest
 cp $out/patch.diff $out/meta.json $dest/ 2>/dev/null
 demo_path=$(jq -r .demo_path $out/meta.json)
 demo_cmd=$(jq -r .demo_cmd $out/meta.json)
-demo_file=$(ls $out | grep -v 'patch.diff\|meta.json\|TASK.md' | head -1)
+demo_file=$(basename "$demo_path")
+[ -f "$out/$demo_file" ] || demo_file=$(ls $out | grep -v 'patch.diff\|meta.json\|TASK.md\|\.log$' | head -1)
 cp $out/$demo_file $dest/
 log=$dest/confirm.log
 : > $log
